@@ -1,5 +1,13 @@
-"""Contract-level lemmas (composition lemmas, sum/induction lemmas).  Each lemma is a set of
-obligations over z3 terms built from the *contracts* (never from function bodies)."""
+"""Lemma library.
+
+* SUM lemmas: closed formulas over the uninterpreted `SUM(A, lo, hi)` (with its two unfolding axioms).  Each lemma is
+  PROVED on every run by induction on `hi` (obligation: unfolding axioms + induction hypothesis for all smaller `hi`
+  => statement at `hi`), and only then made available as a hypothesis to the functions whose contract lists it
+  (`contract(..., lemmas=[...])`).
+* contract-level lemmas (composition lemmas) are registered with @lemma and produce obligations from contracts only.
+"""
+import z3
+
 from .core import *
 
 LEMMAS = {}
@@ -13,6 +21,84 @@ def lemma(name):
 
 
 def lemma_obligations(db, modules, name):
+    if name in SUM_LEMMAS:
+        return sum_lemma_obligations(name)
     if name not in LEMMAS:
         raise EngineError(f"unknown lemma {name}")
     return LEMMAS[name](db, modules)
+
+
+# ----------------------------------------------------------------------------- SUM lemmas
+
+def _vars():
+    A = z3.Const("lA", ARR)
+    B = z3.Const("lB", ARR)
+    C = z3.Const("lC", ARR)
+    lo, hi, mid, lo2, m = z3.Ints("llo lhi lmid llo2 lm")
+    c = z3.Real("lc")
+    i = z3.Int("li")
+    return A, B, C, lo, hi, mid, lo2, m, c, i
+
+
+def _stmt(name, hi_term=None):
+    """returns (universally quantified variables, body(hi) as a function of the induction variable, trigger terms)"""
+    A, B, C, lo, hi, mid, lo2, m, c, i = _vars()
+    h = hi if hi_term is None else hi_term
+    if name == "SUM_NONNEG":
+        body = z3.Implies(z3.ForAll([i], z3.Implies(z3.And(i >= lo, i < h), A[i] >= 0)), SUM(A, lo, h) >= 0)
+        return [A, lo], hi, body, [SUM(A, lo, h)]
+    if name == "SUM_POS":
+        w = z3.Int("lw")
+        body = z3.Implies(z3.And(z3.ForAll([i], z3.Implies(z3.And(i >= lo, i < h), A[i] >= 0)),
+                                 z3.Exists([w], z3.And(w >= lo, w < h, A[w] > 0))), SUM(A, lo, h) > 0)
+        return [A, lo], hi, body, [SUM(A, lo, h)]
+    if name == "SUM_CONG":
+        body = z3.Implies(z3.ForAll([i], z3.Implies(z3.And(i >= lo, i < h), A[i] == B[i])), SUM(A, lo, h) == SUM(B, lo, h))
+        return [A, B, lo], hi, body, [z3.MultiPattern(SUM(A, lo, h), SUM(B, lo, h))]
+    if name == "SUM_SPLIT":
+        body = z3.Implies(z3.And(lo <= mid, mid <= h), SUM(A, lo, h) == SUM(A, lo, mid) + SUM(A, mid, h))
+        return [A, lo, mid], hi, body, [z3.MultiPattern(SUM(A, lo, mid), SUM(A, mid, h))]
+    if name == "SUM_SHIFT":
+        # sum over [lo, lo+m) of A equals sum over [lo2, lo2+m) of B when the entries agree position by position
+        body = z3.Implies(z3.And(h >= 0, z3.ForAll([i], z3.Implies(z3.And(i >= 0, i < h), A[lo + i] == B[lo2 + i]))),
+                          SUM(A, lo, lo + h) == SUM(B, lo2, lo2 + h))
+        return [A, B, lo, lo2], hi, body, [z3.MultiPattern(SUM(A, lo, lo + h), SUM(B, lo2, lo2 + h))]
+    if name == "SUM_LIN":
+        body = z3.Implies(z3.ForAll([i], z3.Implies(z3.And(i >= lo, i < h), C[i] == A[i] + c * B[i])),
+                          SUM(C, lo, h) == SUM(A, lo, h) + c * SUM(B, lo, h))
+        return [A, B, C, c, lo], hi, body, [z3.MultiPattern(SUM(C, lo, h), SUM(A, lo, h), SUM(B, lo, h), c * SUM(B, lo, h))]
+    if name == "SUM_CONST":
+        body = z3.Implies(z3.And(lo <= h, z3.ForAll([i], z3.Implies(z3.And(i >= lo, i < h), A[i] == c))),
+                          SUM(A, lo, h) == z3.ToReal(h - lo) * c)
+        return [A, c, lo], hi, body, [z3.MultiPattern(SUM(A, lo, h), z3.ToReal(h - lo) * c)]
+    if name == "SUM_SCALE":
+        body = z3.Implies(z3.ForAll([i], z3.Implies(z3.And(i >= lo, i < h), C[i] == c * A[i])), SUM(C, lo, h) == c * SUM(A, lo, h))
+        return [A, C, c, lo], hi, body, [z3.MultiPattern(SUM(C, lo, h), SUM(A, lo, h))]
+    raise EngineError(f"unknown SUM lemma {name}")
+
+
+SUM_LEMMAS = ["SUM_NONNEG", "SUM_POS", "SUM_CONG", "SUM_SPLIT", "SUM_SHIFT", "SUM_LIN", "SUM_CONST", "SUM_SCALE"]
+
+
+def sum_lemma_axiom(name):
+    vs, hi, body, pats = _stmt(name)
+    try:
+        return z3.ForAll(vs + [hi], body, patterns=pats)
+    except z3.Z3Exception:
+        return z3.ForAll(vs + [hi], body)
+
+
+def sum_lemma_obligations(name):
+    """strong induction on hi:  (forall h < hi0 . Stmt(h))  =>  Stmt(hi0)   for arbitrary fixed other variables"""
+    vs, hi, body, pats = _stmt(name)
+    # well-founded: the induction hypothesis is available only for base <= h < hi0 (base = lo, or 0 for SUM_SHIFT),
+    # so the measure hi0 - base is a natural number whenever the hypothesis is used
+    base = z3.IntVal(0) if name == "SUM_SHIFT" else z3.Int("llo")
+    hyp = z3.ForAll([hi], z3.Implies(z3.And(base <= hi, hi < z3.Int("lhi0")), body))
+    goal = z3.substitute(body, (hi, z3.Int("lhi0")))
+    deps = [sum_lemma_axiom(d) for d in SUM_DEPS.get(name, [])]     # earlier lemmas (proved on their own, no cycle)
+    o = Obligation(f"lemma::{name}::induction-step", sum_axioms() + deps + [hyp], goal, "lemma", "", func="lemma", clause=name)
+    return [o]
+
+
+SUM_DEPS = {"SUM_POS": ["SUM_NONNEG"]}
